@@ -124,6 +124,42 @@ def check_eq_structural(ctx, rep, type_names):
             leaves = eng.run(f['path'], arg_names=['self', 'other'])
             check_partition(eng, leaves)
             a0, b0 = eng.initial_store.get(('H', 'self')), eng.initial_store.get(('H', 'other'))
+            if a0 is not None and b0 is not None and a0[0] == 'se' and b0[0] == 'se':
+                # a data-carrying enum (DecodedKey): per path class both variants must be decided; same variant => the result
+                # is the equality of the payloads, different variants => false
+                bad = None
+                n = 0
+                ta, tb = a0[2][1], b0[2][1]
+                for lf in leaves:
+                    if lf.kind != 'return':
+                        bad = ('panics', leaf_where(lf)); break
+                    for va in sorted(lf.doms[ta]):
+                        for vb in sorted(lf.doms[tb]):
+                            n += 1
+                            pa, pb = a0[3][va] or (), b0[3][vb] or ()
+                            r = lf.ret
+                            if va != vb:
+                                okc = r[0] == 'c' and r[1] == (0 if f['name'] == 'eq' else 1)
+                            elif not pa:
+                                okc = r[0] == 'c' and r[1] == (1 if f['name'] == 'eq' else 0)
+                            elif len(lf.doms[ta]) == 1 and len(lf.doms[tb]) == 1 and len(pa) == 1 and all(x[0] == 'a' for x in pa + pb):
+                                op = 'Eq' if f['name'] == 'eq' else 'Ne'
+                                okc = r in (('t', op, (pa[0], pb[0]), 'bool'), ('t', op, (pb[0], pa[0]), 'bool'))
+                                if not okc and all(lf.doms.get(x[1]) is not None for x in pa + pb):
+                                    da, db = sorted(lf.doms[pa[0][1]]), sorted(lf.doms[pb[0][1]])
+                                    if len(da) * len(db) <= (1 << 20):
+                                        okc = all((r[1] if r[0] == 'c' else ev(r, {pa[0][1]: x, pb[0][1]: y})) == int((x == y) == (f['name'] == 'eq')) for x in da for y in db)
+                            else:
+                                raise Undecided('payload comparison of variant %d cannot be decided' % va)
+                            if not okc and bad is None:
+                                bad = ('%s(variant %d, variant %d) = %s' % (f['name'], va, vb, term_str(r)), leaf_where(lf))
+                    if bad:
+                        break
+                rep.ob('hand-written PartialEq impls are structural', max(n, 1), 0 if bad else max(n, 1))
+                if bad:
+                    rep.finding('%s eq-of-%s is-not-structural' % (rep.prop, tname),
+                                '%s is hand-written and not structural equality: %s; %s' % (f['path'], bad[0], bad[1]))
+                continue
             fa, fb = flat_scalars(a0), flat_scalars(b0)
             if len(fa) != len(fb) or any(x[0] != 'a' for x in fa + fb):
                 raise Undecided('operands are not plain field tuples')
